@@ -79,6 +79,8 @@ def _structured(tier):
       _c('cloud', t8p, 3, [LN, TP], cloud='liquid_only', extra=1),
       # dry
       _c('dry', t5, 1, [CL, RD, RD]), _c('dry', t8, 2, [CL, LN], oro=False),
+      # profile classes on which sign / monotonicity / end-value shortcuts go wrong
+      _c('time', t8, 5, [CL, 'bump', 'cooling', 'isothermal_top']),
       _c('dry', t8f, 4, [LN, RD, TP, CL], extra=2), _c('dry', t8p, 6, [TP, RD], extra=1),
       _c('dry', t13, 10, [CL, TP, RD], levels='uneven:30'),
       _c('dry', t8, 3, [RD, RD], scale=odd, consts='random'),
@@ -117,7 +119,7 @@ def _random_cases(tier, seed):
   n = 9 if tier == 'quick' else 70
   max_M = 12 if tier == 'quick' else 22
   kinds = ['constant', 'linear', 'random', 'random', 'tropopause', 'cooling', 'isothermal_top',
-           'plateau_cooling']
+           'plateau_cooling', 'bump']
   out = []
   for _ in range(n):
     M_ = int(rng.integers(4, max_M + 1))
